@@ -103,8 +103,9 @@ class Ctx:
                 knowns.append((o, known[o.id]))
             else:
                 violations.append(o)
-        os.makedirs(os.path.join(VERIF, "evidence"), exist_ok=True)
-        replay = os.path.join(VERIF, "evidence", "%s.report.txt" % self.prop)
+        evdir = os.environ.get("RFSM_EVIDENCE_DIR") or os.path.join(VERIF, "evidence")
+        os.makedirs(evdir, exist_ok=True)
+        replay = os.path.join(evdir, "%s.report.txt" % self.prop)
         lines = []
         for o, k in knowns:
             msg = "KNOWN-FINDING: property=%s %s [%s] %s %s" % (self.prop, k.get("what", ""), o.id, o.where, o.detail)
@@ -152,10 +153,10 @@ class Ctx:
             "violations": len(violations),
         }
         ev["coverage"].update(self.extra)
-        tmp = os.path.join(VERIF, "evidence", "%s.json.tmp%d" % (self.prop, os.getpid()))
+        tmp = os.path.join(evdir, "%s.json.tmp%d" % (self.prop, os.getpid()))
         with open(tmp, "w") as fh:
             json.dump(ev, fh, indent=1)
-        os.replace(tmp, os.path.join(VERIF, "evidence", "%s.json" % self.prop))
+        os.replace(tmp, os.path.join(evdir, "%s.json" % self.prop))
         print("%s: %d obligations, %d discharged, %d known finding(s), %d violation(s) [%s, %.1fs]" % (
             self.prop, total, discharged, len(knowns), len(violations), self.tier, time.time() - self.t0))
         if violations:
